@@ -7,6 +7,7 @@
 -/
 import Frrs.Proofs.Stanza
 import Frrs.Proofs.Replace
+import Frrs.Proofs.DataHeader
 namespace Frrs.C05
 open Frrs
 set_option linter.unusedSimpArgs false
@@ -158,5 +159,20 @@ theorem blob_payload_rewritten_exactly (o : FOpts) (s : FState) (line inp payloa
       s'.out = s.out ++ (s.blobBuf.reverse.flatten ++ dataHeader (rewriteBlob o payload).length ++ rewriteBlob o payload) ∧
       s'.inBlob = false ∧ s'.pairs = s.pairs ∧ s'.oversizeMarks = s.oversizeMarks :=
   blob_data_kept o s line inp payload rest n fuel hs hb hc hp1 hp2 hl hh hr hk
+
+theorem readExact_append (p rest : Bytes) : readExact p.length (p ++ rest) = some (p, rest) := by
+  induction p with
+  | nil => simp [readExact]
+  | cons b r ih => simp [readExact, ih]
+
+/-- **the rewritten blob is framed so that a reader gets exactly the new payload**: the length header the filter writes for a
+    rewritten payload parses — with the filter's own header parser, the one whose agreement with the code the correspondence
+    checks — to the new payload's length, and reading that many bytes from what follows yields the rewritten payload and
+    leaves the rest of the stream untouched. So a replacement that changes the payload's size cannot shift any later
+    stanza. (The bound is the parser's own 500 MB limit; the importer has none.) -/
+theorem rewritten_blob_reads_back (o : FOpts) (payload rest : Bytes) (h : (rewriteBlob o payload).length ≤ maxDataBlock) :
+    parseDataHeader (dataHeader (rewriteBlob o payload).length) = some (rewriteBlob o payload).length ∧
+    readExact (rewriteBlob o payload).length (rewriteBlob o payload ++ rest) = some (rewriteBlob o payload, rest) :=
+  ⟨parseDataHeader_dataHeader _ h, readExact_append _ _⟩
 
 end Frrs.C05
